@@ -300,7 +300,16 @@ def build_hdd_disk(chain, rng, work, cs=4096, top_default=True):
         enc_hds.write_hdd_dir(d, storages, [shots[k] for k in order], files, top_guid=guids[0])
         # both storage files of a layer share the layer's pattern id; the host map keeps only the byte offset
         host = [{c: v[1] for c, v in row.items()} for row in host]
-    return _mk_built(lambda: HDD(Path(d)).open(), cs, n, host, list(range(len(chain))), {"fmt": "hdd", "cs": cs, "top_default": top_default, "split": split}), d
+    shared = []
+
+    def opener():
+        # every other stream comes from one shared HDD object that has handed out streams before
+        if not shared:
+            shared.append(HDD(Path(d)))
+            shared[0].open().read(512)
+        return shared[0].open() if len(shared) % 2 or rng.random() < 0.5 else HDD(Path(d)).open()
+
+    return _mk_built(opener, cs, n, host, list(range(len(chain))), {"fmt": "hdd", "cs": cs, "top_default": top_default, "split": split}), d
 
 
 # ---------------------------------------------------------------- direction A driver
